@@ -62,6 +62,9 @@ def model_runs(chk, out):
         out["inv"] = vlib.tlc("LibFile", "LibFileAsWrittenInv", workers=w, timeout=900)
         out["asw"] = vlib.tlc("LibFile", "LibFileAsWritten", workers=w, timeout=900, coverage=True)
         out["nosum"] = vlib.tlc("LibFile", "LibFileRequiredNoSum", workers=w, timeout=900)
+        out["ar_req"] = vlib.tlc("ArFile", "ArFileRequired", workers=w, timeout=900)
+        out["ar_asw"] = vlib.tlc("ArFile", "ArFileAsWritten", workers=w, timeout=900, coverage=True)
+        out["ar_nosum"] = vlib.tlc("ArFile", "ArFileRequiredNoSum", workers=w, timeout=900)
     except Exception as e:     # re-raised in the main thread
         out["error"] = e
 
@@ -142,7 +145,17 @@ def run(chk, tier):
         if r.violated:
             chk.violation("design model %s violates %s" % (name, r.violated), r.trace_text,
                           key={"model": "LibFile", "cfg": name, "inv": r.violated})
+    ar_req, ar_asw, ar_nosum = mres["ar_req"], mres["ar_asw"], mres["ar_nosum"]
+    for name, r in (("ArFileRequired", ar_req), ("ArFileAsWritten", ar_asw), ("ArFileRequiredNoSum", ar_nosum)):
+        chk.add_tlc(name, r)
+        if r.violated:
+            chk.violation("design model %s violates %s" % (name, r.violated), r.trace_text,
+                          key={"model": "ArFile", "cfg": name, "inv": r.violated})
+    for act in ("Damage", "RdFormat", "RdItem", "Extract", "Finish"):
+        if ar_asw.coverage.get(act, (0, 0))[0] == 0:
+            raise vlib.MachineryError("ArFileAsWritten never took action %s" % act)
     t_asw, t_nosum = _table(asw), _table(nosum)
+    t_ar_asw, t_ar_nosum = _table(ar_asw), _table(ar_nosum)
     bad = lambda t: sorted("%s/%s:%s" % (k[0], k[1], o) for k, os_ in t.items() if k[0] in ("trunc", "subst")
                            for o in os_ if o not in ("Same", "Rejected"))
     chk.extra["model"] = {
@@ -150,6 +163,8 @@ def run(chk, tier):
         "as_written_counterexample": inv.trace_text[-1500:] if inv.violated else "",
         "as_written_bad_classes": bad(t_asw),
         "required_reader_without_integrity_cells_bad_classes": bad(t_nosum),
+        "archive_as_written_bad_classes": bad(t_ar_asw),
+        "archive_required_reader_without_integrity_cells_bad_classes": bad(t_ar_nosum),
     }
     if not bad(t_asw) or inv.violated != "DamagedRefused":
         chk.extra["model"]["note"] = "the as-written model no longer violates DamagedRefused: it does not describe lib.c's weaknesses any more (drift)"
@@ -163,8 +178,11 @@ def run(chk, tier):
         ck = (e["fmt"], e["route"], e["cls"], e["sect"], e["kind"])
         chk.case(ck, nontrivial=e["kind"] != "none")
         o = rejected.get(e["id"])
-        if e["fmt"] == "ao" and e["kind"] != "none":
-            observed.setdefault((e["kind"], e["cls"]), set()).add(o or "ok")
+        if e["kind"] != "none":
+            mc = e["cls"]
+            if e["fmt"] == "al" and mc in ("arhdr.uid", "arhdr.gid", "arhdr.mode"):
+                mc = "arhdr.date"            # ArFile.tla has one cell for the numeric fields nobody uses
+            observed.setdefault((e["fmt"], e["kind"], mc), set()).add(o or "ok")
         if o is None:
             continue
         k = vkey(e, o)
@@ -184,16 +202,17 @@ def run(chk, tier):
 
     # drift: the as-written MODEL's bad classes against what the real reader showed (information only)
     drift = []
-    for (kind, cls), outs in sorted(t_asw.items()):
-        if kind not in ("trunc", "subst"):
-            continue
-        mbad = bool(outs - {"Same", "Rejected"})
-        obs = observed.get((kind, cls))
-        if obs is None:
-            continue
-        rbad = bool(obs - {"ok"})
-        if mbad != rbad:
-            drift.append({"kind": kind, "class": cls, "model_as_written": sorted(outs), "real_has_violation": rbad})
+    for fmt, tab in (("ao", t_asw), ("al", t_ar_asw)):
+        for (kind, cls), outs in sorted(tab.items()):
+            if kind not in ("trunc", "subst"):
+                continue
+            mbad = bool(outs - {"Same", "Rejected"})
+            obs = observed.get((fmt, kind, cls))
+            if obs is None:
+                continue
+            rbad = bool(obs - {"ok"})
+            if mbad != rbad:
+                drift.append({"format": fmt, "kind": kind, "class": cls, "model_as_written": sorted(outs), "real_has_violation": rbad})
     chk.extra["drift"] = drift
     nrej = len(rejected)
     chk.extra["campaign"] = {
